@@ -46,7 +46,7 @@ def gen(prop, stream, tier, avoid):
     ops = []
     for _ in range(nops):
         k = rng.weighted([("set_ptsw", 2), ("set_pts", 2), ("set_weights", 2), ("read", 4), ("scale", 1), ("reassign", 1),
-                          ("convert", 0.7), ("helpers", 1), ("grid", w_grid)])
+                          ("convert", 0.7), ("helpers", 1), ("grid", w_grid), ("copy_edit", 0.6)])
         op = {"op": k, "seed": rng.randrange(1 << 30)}
         if k == "read":
             op["views"] = [rng.pick(["ctrlpts", "weights", "ctrlptsw", "ctrlpts2d", "eval"]) for _ in range(rng.pick([1, 1, 2, 3]))]
@@ -231,6 +231,29 @@ def run(script, ctx):
             ctx.log("scale", op["c"])
             ctx.ops_executed += 1
             read_since = True
+        elif k == "copy_edit":
+            # a deep copy is edited with the get - modify one entry in place - set idiom; the ORIGINAL keeps its three views
+            # consistent (checked by the reads that follow and right here), and so does the copy
+            import copy as _copy
+            cp_ = _copy.deepcopy(obj)
+            v = rng.pick(["ctrlpts", "weights", "ctrlptsw"])
+            lst = getattr(cp_, v)
+            i = rng.randrange(n)
+            if v == "weights":
+                lst[i] = lst[i] * 2.0
+            else:
+                lst[i][0] = lst[i][0] + 10.0
+            setattr(cp_, v, lst)
+            ctx.log("copy_edit", v, i)
+            ctx.ops_executed += 1
+            ctx.probe("deep_copy_edited_in_place_and_written_back")
+            for vv in ("ctrlpts", "weights", "ctrlptsw", "eval"):
+                check_view(vv, "step %d, the original after its deep copy was edited through '%s'" % (idx, v))
+            cw = [list(q) for q in cp_.ctrlptsw]
+            cpw = [[c * w_ for c in q] + [w_] for q, w_ in zip(cp_.ctrlpts, cp_.weights)]
+            ok, why = close(cw, cpw, TOL)
+            if not ok:
+                ctx.fail("view_inconsistent", "step %d: the edited deep copy's ctrlptsw is not ctrlpts * weights: %s" % (idx, why), view="copy", **sig)
         elif k == "reassign":
             v = op["view"]
             lst = getattr(obj, v)
